@@ -935,7 +935,7 @@ func TestVerifC44(t *testing.T) {
 		nA := vk.Pick(c, 7, 9)
 		nB1 := vk.Pick(c, 3, 4)
 		nB2 := vk.Pick(c, 3, 4)
-		nD := vk.Pick(c, 4, 5)
+		nD := vk.Pick(c, 3, 4)
 		c.Rule(fmt.Sprintf("A: every document of <=%d symbols over %q (each string once), every byte offset and every position (line <= lines+1, char <= longest line+2); class = (character/line-ending kinds present, number of lines, longest line in UTF-16 units). "+
 			"B1: every document of <=%d tokens over %q opened on the server subprogram, hover and completion at every position (line <= lines+1, char <= that line's length+2); class = (kinds present, number and first message of diagnostics, set of reply kinds). "+
 			"B1d: every document of <=%d tokens over %q opened, diagnostics compared; class = (kinds present, per parse error: message, UTF-8 width of the culprit, range length). "+
